@@ -1,71 +1,81 @@
 //! Counting global allocator: per-thread live bytes and peak, so a single decode call can be
-//! held to "peak live allocation <= small multiple of the input" (C02, C12).
+//! held to "peak live allocation <= small multiple of the input" (C02, C12). Every thread writes
+//! only its own cache-line-aligned slot (no contention); the memory watchdog sums the slots.
 use std::alloc::{GlobalAlloc, Layout, System};
 use std::cell::Cell;
-use std::sync::atomic::{AtomicIsize, Ordering};
+use std::sync::atomic::{AtomicIsize, AtomicUsize, Ordering::Relaxed};
 
-/// live bytes of the whole process (relaxed; only used by the memory watchdog)
-pub static PROCESS_LIVE: AtomicIsize = AtomicIsize::new(0);
+const NSLOTS: usize = 64;
+
+#[repr(align(128))]
+struct Slot {
+    live: AtomicIsize,
+    peak: AtomicIsize,
+}
+
+static SLOTS: [Slot; NSLOTS] = [const { Slot { live: AtomicIsize::new(0), peak: AtomicIsize::new(0) } }; NSLOTS];
+static NEXT: AtomicUsize = AtomicUsize::new(0);
 
 thread_local! {
-    static LIVE: Cell<isize> = const { Cell::new(0) };
-    static PEAK: Cell<isize> = const { Cell::new(0) };
-    static LIMIT: Cell<isize> = const { Cell::new(isize::MAX) };
+    static IDX: Cell<usize> = const { Cell::new(usize::MAX) };
+}
+
+#[inline]
+fn slot() -> &'static Slot {
+    let k = IDX
+        .try_with(|i| {
+            let mut k = i.get();
+            if k == usize::MAX {
+                k = NEXT.fetch_add(1, Relaxed) % NSLOTS;
+                i.set(k);
+            }
+            k
+        })
+        .unwrap_or(NSLOTS - 1);
+    &SLOTS[k]
+}
+
+#[inline]
+fn add(delta: isize) {
+    let s = slot();
+    let v = s.live.fetch_add(delta, Relaxed) + delta;
+    if delta > 0 && v > s.peak.load(Relaxed) {
+        s.peak.store(v, Relaxed);
+    }
 }
 
 pub struct Counting;
 
-/// Allocation above the per-call limit: unwind out of the call under test.
-/// (Panicking inside `alloc` is not allowed, so the limit is enforced by returning null for
-/// the offending request, which makes Vec growth call handle_alloc_error -> abort. To keep the
-/// process alive the harness instead uses the cooperative check in `peak()` plus a hard process
-/// cap; the limit below only exists to stop runaway loops quickly.)
 unsafe impl GlobalAlloc for Counting {
     unsafe fn alloc(&self, l: Layout) -> *mut u8 {
-        let _ = LIVE.try_with(|c| {
-            let v = c.get() + l.size() as isize;
-            c.set(v);
-            let _ = PEAK.try_with(|p| {
-                if v > p.get() {
-                    p.set(v)
-                }
-            });
-        });
-        PROCESS_LIVE.fetch_add(l.size() as isize, Ordering::Relaxed);
+        add(l.size() as isize);
         System.alloc(l)
     }
     unsafe fn dealloc(&self, p: *mut u8, l: Layout) {
-        let _ = LIVE.try_with(|c| c.set(c.get() - l.size() as isize));
-        PROCESS_LIVE.fetch_sub(l.size() as isize, Ordering::Relaxed);
+        add(-(l.size() as isize));
         System.dealloc(p, l)
     }
     unsafe fn realloc(&self, p: *mut u8, l: Layout, new: usize) -> *mut u8 {
-        let _ = LIVE.try_with(|c| {
-            let v = c.get() + new as isize - l.size() as isize;
-            c.set(v);
-            let _ = PEAK.try_with(|pk| {
-                if v > pk.get() {
-                    pk.set(v)
-                }
-            });
-        });
-        PROCESS_LIVE.fetch_add(new as isize - l.size() as isize, Ordering::Relaxed);
+        add(new as isize - l.size() as isize);
         System.realloc(p, l, new)
     }
 }
 
-/// Start measuring: peak := live.
+/// Start measuring on the calling thread: peak := live.
 pub fn reset_peak() -> isize {
-    let live = LIVE.with(|c| c.get());
-    PEAK.with(|p| p.set(live));
+    let s = slot();
+    let live = s.live.load(Relaxed);
+    s.peak.store(live, Relaxed);
     live
 }
 
-/// Peak live bytes above the level at `reset_peak`.
+/// Peak live bytes of the calling thread above the level at `reset_peak`.
 pub fn peak_since(base: isize) -> usize {
-    (PEAK.with(|p| p.get()) - base).max(0) as usize
+    (slot().peak.load(Relaxed) - base).max(0) as usize
 }
 
-pub fn set_limit(l: isize) {
-    LIMIT.with(|c| c.set(l));
+/// Live bytes of the whole process (memory watchdog). Memory freed by another thread than the
+/// one that allocated it makes single slots drift, the sum stays exact.
+pub fn process_live() -> isize {
+    SLOTS.iter().map(|s| s.live.load(Relaxed)).sum()
 }
